@@ -90,6 +90,14 @@ static int line_to_instr(struct instr *instr_data, char *filtered_asm_str) {
   instr_data->key = str_to_instr_key(instr_data->instruction, opd_format);
   FAIL_IF_VAR(instr_data->key == INSTR_ERROR,
               "unsupported or illegal instruction: %s\n", asm_str);
+  // the operand format `n` stands for "no operand" as well as "one immediate":
+  // rows that encode a displacement or an immediate need one, the others none
+  if (opd_format == n) {
+    int en = INSTR_TABLE[instr_data->key].encode_operand;
+    bool wants_imm = en == D || en == S || en == I;
+    FAIL_IF_VAR(instr_data->imm != wants_imm,
+                "illegal operands for instruction: %s\n", asm_str);
+  }
   if (instr_data->imm && TYPE(instr_data->key, CONTROL_FLOW)) {
     // the displacement must fit in 32 bits (two's complement)
     FAIL_IF_MSG(IN_RANGE(instr_data->cons, MAX_UNSIGNED_32BIT + 1UL,
